@@ -35,7 +35,7 @@ Proof.
     destruct v1; try discriminate;
       try (destruct (py_own_attr f); [discriminate|]);
       try (injection H as <- _; exact E);
-      try (destruct (String.eqb f "id"); [injection H as <- _; exact E|discriminate]).
+      try (dbind H as w0; injection H as <- _; exact E).
     + destruct (nth_error (heap s1) h); [|discriminate].
       destruct (row_attr c f); injection H as <- _; exact E.
     + destruct (String.eqb f "id"); [|discriminate]. dbind H as [s2 i].
@@ -85,7 +85,7 @@ Proof.
       destruct (row_attr c p); [|discriminate]. injection E as <- _. reflexivity.
     + destruct (String.eqb p "id"); [|discriminate]. dbind E as [s2 i].
       injection E as <- _. apply touch_slot_out in E0. exact E0.
-    + destruct (String.eqb p "id"); [|discriminate]. injection E as <- _. reflexivity.
+    + dbind E as w0. injection E as <- _. reflexivity.
 Qed.
 
 Lemma reference_out e path s s' v : reference e path s = Ok (s', v) -> same_out s s'.
